@@ -7,6 +7,7 @@ from .. import gen, probe
 from ..drive import call
 from ..shard import Workload
 from ._common import arm_tt
+from . import ambient
 
 P = 'C04'
 tt = None
@@ -107,6 +108,7 @@ def w_ortho_trunc(ctx, rng, idx):
 WORKLOADS = [
     Workload('from_array', w_from_array, 320, 8000),
     Workload('ortho_trunc', w_ortho_trunc, 200, 5000),
+    ambient.WORKLOAD,
 ]
 REQUIRED = ['C04|TT.__init__:rank_bound', 'C04|TT.__init__:quasi_optimal_error', 'C04|TT.__init__:threshold_error',
             'C04|TT.__init__:exact_without_truncation', 'C04|TT.ortho:rank_bound', 'C04|TT.ortho:quasi_optimal_error',
